@@ -670,6 +670,8 @@ def make_chooser(draw, doc, style=None):
                 vals += xs + [xs[0] - 1, xs[-1] + 1]
         if name in lsrc:
             vals += [0, 1, 2, 3, 4, 5, 8, 16]
+            if enc.get("sign") in ("signed", "twosComplement"):
+                vals += [-8, -16, -24, -1, -7]     # a signed length source can make a length negative on its own
         return vals
 
     def chooser(n, info):
